@@ -76,9 +76,34 @@ def mutants_of(src: str, rel: str):
             sites.append(("brk", node))
         if isinstance(node, ast.Subscript) and isinstance(node.slice, ast.Constant) and isinstance(node.slice.value, int):
             sites.append(("index", node))
+    # third operator set (MUT_SET=3): order of adjacent statements, dropped operand, wrong variable
+    for node in ast.walk(tree):
+        if rel.endswith("parser.py") and state_fn(node):
+            continue
+        for fname in ("body", "orelse"):
+            blk = getattr(node, fname, None)
+            if isinstance(blk, list) and not isinstance(node, (ast.Module, ast.ClassDef)):
+                for a, b2 in zip(blk, blk[1:]):
+                    if isinstance(a, (ast.Expr, ast.Assign, ast.AugAssign)) and isinstance(b2, (ast.Expr, ast.Assign, ast.AugAssign)) \
+                            and not (isinstance(a, ast.Expr) and isinstance(a.value, ast.Constant)):
+                        sites.append(("swapstmt", a))
+        if isinstance(node, ast.BoolOp) and len(node.values) >= 2:
+            sites.append(("dropoperand", node))
+        if isinstance(node, ast.FunctionDef):
+            params = [a.arg for a in node.args.args if a.arg not in ("self", "cls")]
+            if len(params) >= 2:
+                for n2 in ast.walk(node):
+                    if isinstance(n2, ast.Name) and isinstance(n2.ctx, ast.Load) and n2.id in params:
+                        sites.append(("wrongvar", n2))
     second = {"str", "ifalways", "ifnever", "ifexp", "retnone", "swapargs", "aug2assign", "slice", "brk", "index"}
+    third = {"swapstmt", "dropoperand", "wrongvar"}
     which = os.environ.get("MUT_SET", "1")
-    sites = [x for x in sites if (x[0] in second) == (which == "2")] if which in ("1", "2") else sites
+    if which == "1":
+        sites = [x for x in sites if x[0] not in second | third]
+    elif which == "2":
+        sites = [x for x in sites if x[0] in second]
+    elif which == "3":
+        sites = [x for x in sites if x[0] in third]
     out = []
     for k, (kind, node) in enumerate(sites):
         t2 = copy.deepcopy(tree)
@@ -177,6 +202,35 @@ def mutants_of(src: str, rel: str):
                     if isinstance(val, list) and target in val:
                         val[val.index(target)] = ast.Pass()
             desc = "break/continue removed"
+        elif kind == "swapstmt":
+            done = False
+            for n in ast.walk(t2):
+                for fname in ("body", "orelse"):
+                    blk = getattr(n, fname, None)
+                    if isinstance(blk, list) and target in blk:
+                        i_ = blk.index(target)
+                        if i_ + 1 < len(blk):
+                            blk[i_], blk[i_ + 1] = blk[i_ + 1], blk[i_]
+                            done = True
+            if not done:
+                continue
+            desc = "adjacent statements swapped"
+        elif kind == "dropoperand":
+            target.values = target.values[:-1] if len(target.values) > 2 else [target.values[0], target.values[0]]
+            desc = "last operand of and/or dropped"
+        elif kind == "wrongvar":
+            fn = None
+            for n in ast.walk(t2):
+                if isinstance(n, ast.FunctionDef) and any(x is target for x in ast.walk(n)):
+                    fn = n
+            if fn is None:
+                continue
+            params = [a.arg for a in fn.args.args if a.arg not in ("self", "cls")]
+            others = [p_ for p_ in params if p_ != target.id]
+            if not others:
+                continue
+            desc = f"variable {target.id} -> {others[0]}"
+            target.id = others[0]
         elif kind == "index":
             target.slice = ast.Constant(value=target.slice.value + 1 if target.slice.value >= 0 else target.slice.value - 1)
             desc = "constant index shifted"
